@@ -47,6 +47,22 @@ CLAIMS.update({
             "contract-based deductive verification with effect traces (pyvc+z3)", FS_NOTE),
 })
 
+CLAIMS.update({
+    "C01": ("other", "calc_id's call-site conformance to the canonical-JSON / UTF-8 / MD5 contracts proved (any other json.dumps option, encoder, encoding or digest use fails the postcondition); "
+            "both loaders return only data whose re-derived id equals the requested id; open_job hands Job an unaliased deep copy; Job.__init__ derives the id from the state point. "
+            "The json/md5 contracts themselves (canonical form, type-exact round trip) are assumed and validated by the bounded layer against an independent canonical writer.",
+            "DESIGN 4/C01", "contract-based deductive verification (pyvc+z3) with keyed contracts for json.dumps/md5; bounded validation of the dependency contracts", BASE_TRUST),
+    "C18": ("other", "diff_jobs proved against set algebra on flattened (key, value) pairs for 0..3 jobs of arbitrary content (each diff = pairs not shared by all; common + diff reconstructs); "
+            "detect_schema / _build_job_statepoint_index only bounded so far (known finding F3 on the index).", "DESIGN 4/C18",
+            "contract-based deductive verification (pyvc+z3) for diff_jobs; bounded contract checking for detect_schema", BASE_TRUST),
+    "C19": ("other", "_locate_config_dir proved with loop invariants and a decreasing variant over an axiomatised directory chain: returns the nearest enclosing directory with a config, raises "
+            "IncompatibleSchemaVersion only at a legacy project with no current config enclosing, None only if nothing encloses. get_project/get_job/init_project wiring bounded only so far.",
+            "DESIGN 4/C19", "contract-based deductive verification (pyvc+z3, inductive loop invariants over a directory-chain theory)", BASE_TRUST),
+    "C20": ("other", "Integer contract of the version gate (_check_schema_compatibility passes iff version == 2, for every integer), _raise_if_older_schema refuses every loadable config of "
+            "another version, _locate_config_dir's legacy scan; migration functions bounded only so far.", "DESIGN 4/C20",
+            "contract-based deductive verification (pyvc+z3)", BASE_TRUST),
+})
+
 NOT_YET = "not yet under contract in this round of the build (see DESIGN.md section 8 for the order); no check is registered, nothing is claimed"
 
 NA = {}
